@@ -23,6 +23,7 @@ Core Lean only; imports nothing.
 
 namespace ExitRace
 
+def stDraining : Nat := 4
 def stStopping : Nat := 5
 def stStopped : Nat := 6
 
@@ -36,6 +37,13 @@ structure Flags where
   terminated : Bool := false
   supNotified : Bool := false
   unlinked : Bool := false
+  deriving DecidableEq, Repr, Inhabited
+
+/-- Who holds the actor's registered name: the exiting actor itself, nobody, or a successor that
+registered the freed name while the exit was still in progress. `registry::unregister(name)`
+removes the entry whoever holds it. -/
+inductive NameHolder where
+  | self | none | succ
   deriving DecidableEq, Repr, Inhabited
 
 /-- Program counter inside one call `ActorCell::set_status(s)`; `prev` = value returned by `fetch_max`. -/
@@ -109,6 +117,10 @@ structure Exiter where
   /-- `post_stop` runs (graceful exit) -/
   hasPostStop : Bool := true
   lateCalls : List Nat := []
+  /-- `ActorLifecycleGuard::armed`: cleared only after the final `set_status(Stopped)` -/
+  armed : Bool := true
+  /-- ghost: a statement of `cleanup` has panicked (a second panic while unwinding would abort) -/
+  unwound : Bool := false
   deriving DecidableEq, Repr, Inhabited
 
 /-- Another thread calling `set_status(s)` for each `s` of its list. -/
@@ -124,6 +136,8 @@ structure Sh where
   /-- `Notify`: stored permit -/
   permit : Bool := false
   flags : Flags := {}
+  /-- the registry entry of the actor's name -/
+  name : NameHolder := .self
   /-- ghost: how often the cleanup block / the notify block of `set_status` was elected -/
   cleanupRuns : Nat := 0
   notifyRuns : Nat := 0
@@ -134,6 +148,8 @@ structure G where
   exiter : Exiter := {}
   setters : List Setter := []
   waiters : List Waiter := []
+  /-- threads calling `drain()`; `true` = the `fetch_update` (point `drain.status`) is still ahead -/
+  drainers : List Bool := []
   deriving Repr, Inhabited
 
 inductive Tid where
@@ -141,6 +157,13 @@ inductive Tid where
   | s (i : Nat)
   | w (i : Nat)
   | abandon (i : Nat)
+  /-- drainer `i`: `drain()`'s `fetch_update(|f| if f < Stopping { Some(Draining) } else { None })` -/
+  | d (i : Nat)
+  /-- a successor actor registers the name, if it is free -/
+  | succ
+  /-- the statement of `cleanup` the exiter is about to execute panics; unwinding drops the
+  lifecycle guard, whose `Drop` runs `cleanup` again from the top because it is still armed -/
+  | unwind
   deriving DecidableEq, Repr, Inhabited
 
 /-- every cleanup step that precedes `publish(Stopped)` is done -/
@@ -185,7 +208,8 @@ def stepSet (sh : Sh) (ws : List Waiter) : SPc → Sh × List Waiter × Option S
       ({ sh with cleanupRuns := sh.cleanupRuns + 1 }, ws, some (.unregPid s prev))
     else (sh, ws, afterCleanup s prev)
   | .unregPid s prev => ({ sh with flags := { sh.flags with unregPid := true } }, ws, some (.unregName s prev))
-  | .unregName s prev => ({ sh with flags := { sh.flags with unregName := true } }, ws, some (.pgDemon s prev))
+  | .unregName s prev =>
+    ({ sh with flags := { sh.flags with unregName := true }, name := .none }, ws, some (.pgDemon s prev))
   | .pgDemon s prev => ({ sh with flags := { sh.flags with pgDemon := true } }, ws, some (.pgLeave s prev))
   | .pgLeave s prev => ({ sh with flags := { sh.flags with pgLeft := true } }, ws, afterCleanup s prev)
   | .statusNotify => (sh, ws, some .notifyWaiters)
@@ -220,7 +244,7 @@ def stepExiter (sh : Sh) (ws : List Waiter) (ex : Exiter) : Sh × List Waiter ×
   | .set3 c =>
     match stepSet sh ws c with
     | (sh, ws, some c') => (sh, ws, { ex with pc := .set3 c' })
-    | (sh, ws, none) => (sh, ws, { ex with pc := lateEntry ex.lateCalls })
+    | (sh, ws, none) => (sh, ws, { ex with pc := lateEntry ex.lateCalls, armed := false })
   | .late c rest =>
     match stepSet sh ws c with
     | (sh, ws, some c') => (sh, ws, { ex with pc := .late c' rest })
@@ -294,14 +318,33 @@ def step (g : G) : Tid → G
           let (sh, ws) := notifyOne g.sh ws
           { g with sh := sh, waiters := ws }
         else { g with waiters := ws }
+  | .d i =>
+    match g.drainers[i]? with
+    | some true =>
+      { g with sh := { g.sh with status := if g.sh.status < stStopping then stDraining else g.sh.status },
+               drainers := g.drainers.set i false }
+    | _ => g
+  | .succ =>
+    match g.sh.name with
+    | .none => { g with sh := { g.sh with name := .succ } }
+    | _ => g
+  | .unwind =>
+    if g.exiter.unwound then g else
+    match g.exiter.pc with
+    | .terminate | .notifySup | .unlink =>
+      if g.exiter.armed then
+        { g with exiter := { g.exiter with pc := .set2 (.publish stStopping), unwound := true } }
+      else { g with exiter := { g.exiter with pc := .done, unwound := true } }
+    | _ => g
 
 def run (g : G) (sched : List Tid) : G := sched.foldl step g
 
 /-- Initial state: actor `Running`, exit not started; `n` waiters; setters with their values. -/
-def init (hasPostStop : Bool) (lateCalls : List Nat) (setters : List (List Nat)) (n : Nat) : G :=
+def init (hasPostStop : Bool) (lateCalls : List Nat) (setters : List (List Nat)) (n : Nat)
+    (drainers : Nat := 0) : G :=
   { sh := {}, exiter := { hasPostStop := hasPostStop, lateCalls := lateCalls },
     setters := setters.map (fun l => { call := none, rest := l }),
-    waiters := List.replicate n {} }
+    waiters := List.replicate n {}, drainers := List.replicate drainers true }
 
 /-! ### Observation helpers -/
 
@@ -349,6 +392,8 @@ every waiter is fresh. The cleanup flags are arbitrary (a kill signal, for insta
 children before the exit sequence starts). -/
 structure Initial (g : G) : Prop where
   exiter : g.exiter.pc = .set1 (.publish stStopping)
+  armed : g.exiter.armed = true
+  name : g.sh.name = .self
   status : g.sh.status < stStopping
   gen : g.sh.gen = 0
   permit : g.sh.permit = false
